@@ -279,3 +279,38 @@ def local_flows_from(fn, dst_local, src_pred, depth=12):
                             nxt.append(p.local)
         work = nxt
     return None
+
+
+def result_branch(fn, call_term, max_hops=6):
+    """Follow the Result/Option produced by call_term through adapter calls (map_err, to_owned, Try::branch,
+    as_ref ...) to the switch that separates success from failure.
+    Returns (ok_target, err_target) or raises AnchorError."""
+    t = call_term
+    for _ in range(max_hops):
+        sw = switch_on_call_result(fn, t)
+        if sw is not None:
+            arms = sw["arms"]
+            for ok, err in (("Continue", "Break"), ("Ok", "Err"), ("Some", "None")):
+                if ok in arms and err in arms:
+                    return arms[ok], arms[err]
+        # next hop: a call that consumes the destination as its first argument
+        nxt = None
+        if t.dst is None:
+            break
+        aliases = {t.dst.local}
+        for s in fn.stmts():
+            if s.rv in ("use", "ref") and s.dst is not None and not s.dst.proj:
+                q = op_place(s.ops[0]) if s.rv == "use" else s.place
+                if q is not None and q.local in aliases:
+                    aliases.add(s.dst.local)
+        for c in fn.calls():
+            if c is t or not c.args:
+                continue
+            a = op_place(c.args[0])
+            if a is not None and a.local in aliases and fn.dominates(t.bb, c.bb):
+                nxt = c
+                break
+        if nxt is None:
+            break
+        t = nxt
+    raise AnchorError("the result of %s in %s is not branched on" % (call_term.callee, fn.id))
